@@ -28,7 +28,7 @@ RULE = (
     "file set / entry point; distinct = distinct (world digest, op digest, history-prefix digest)."
 )
 TIERS = {
-    "quick": {"runs": 60, "budget_s": 60, "min_runs": 10, "run_timeout_s": 300},
+    "quick": {"runs": 60, "budget_s": 45, "min_runs": 10, "run_timeout_s": 300},
     "thorough": {"runs": 6000, "budget_s": 800, "min_runs": 150, "run_timeout_s": 600},
 }
 COMPONENTS_REAL = [
